@@ -802,7 +802,7 @@ Definition u_sem_case_ok (c : uprog * bool * list uval * ns) : bool :=
 (* hash_node hashes the breadth-first walk of a tree: per node its type and plain fields (TK), and for
    Name / arg / FunctionDef nodes the name (TN; b = the occurrence binds the name: parameter, store,
    nested definition).  A name is hashed literally when it is preserved, otherwise as the number of
-   first occurrences of names seen so far.  remove_duplicate_functions (after repair 3c7e4a0) preserves
+   first occurrences of names seen so far.  remove_duplicate_functions (after repair 45d5772) preserves
    the names that the function does not bind itself. *)
 Inductive tok := TK (k : nat) | TN (x : name) (b : bool).
 Inductive ctok := CK (k : nat) | CKeep (x : name) | CIdx (i : nat).
